@@ -58,6 +58,7 @@ class Item:
     extra_assoc: str = ""               # text placed inside the impl (e.g. spec fns required by stand-in traits)
     proved_in: str = ""                 # for stubs: unit that proves this contract
     label: str = ""
+    raw_top: bool = False
 
 
 @dataclass
@@ -315,7 +316,7 @@ def build_fn(unit, item, imp, fnitem, spec: Fn, cover=False):
     attrs = _strip_attrs(fnitem.attrs_text, applied)
     sig = fnitem.sig_text.rstrip()
     body = fnitem.body_text
-    if body is None:
+    if body is None and not (imp is not None and imp.kind == 'trait'):
         raise Unsupported(f"{item.file} :: {item.header} :: {spec.name}: no body")
     stub = item.mode == "stub"
     # R13: name the return value
@@ -340,6 +341,11 @@ def build_fn(unit, item, imp, fnitem, spec: Fn, cover=False):
         contract += f"\n        ensures {spec.ensures.strip().rstrip(',')},"
     if spec.decreases:
         contract += f"\n        decreases {spec.decreases.strip().rstrip(',')},"
+    if body is None:
+        # trait method declaration: signature + contract only
+        lo, hi = fnitem.line_span()
+        return f"{attrs}\n{sig}{contract};\n", dict(fn=spec.name, mode="decl", file=item.file, header=item.header, lines=[lo, hi],
+                                                      sha256=fnitem.sha256(), rules=[], props=[], tag="trait method declaration")
     if stub:
         # R1 on the signature only
         sig2, n = re.subn(r'\(\s*mut\s+self\b', '(self', sig)
@@ -363,6 +369,13 @@ def build_fn(unit, item, imp, fnitem, spec: Fn, cover=False):
         body, n3 = _code_sub(body, r'&\s*(' + names + r')\b(?!\s*[\(:])', r'&lazy::\1()')
         if n1 + n2 + n3:
             applied.append(("R3", "*NAME / &NAME on once_cell::Lazy statics", f"lazy::NAME() x{n1 + n2 + n3}"))
+    # R19: `E.map_err(|_| X)?`  ==  `match E { Ok(v) => v, Err(_) => return Err(X) }`   (Rust desugaring; X constant)
+    body, n19 = _code_sub(body, r'(=\s*)([^;=]+?)\s*\.map_err\(\|_\|\s*([\w:]+)\s*\)\s*\?',
+                          r'\1match \2 { Ok(v_) => v_, Err(_) => return Err(\3) }')
+    body, n19b = _code_sub(body, r'(?<![\w.)])((?:\w+)(?:\s*\.\s*\w+\([^()]*\))+?)\s*\.map_err\(\|_\|\s*([\w:]+)\s*\)(?!\s*\?)',
+                           r'match \1 { Ok(v_) => Ok(v_), Err(_) => Err(\2) }')
+    if n19 + n19b:
+        applied.append(("R19", "E.map_err(|_| X)[?]", f"match E {{ Ok(v) => .., Err(_) => .. }} x{n19 + n19b}"))
     # declared substitutions
     for (rule, rx, rp) in list(unit.global_subst) + list(spec.subst):
         whole = sig + "\x00" + body
@@ -481,6 +494,7 @@ def widen_fields(text):
         # keep leading comments/attrs, add pub before the field if missing
         m2 = re.match(r'(?s)((?:\s*(?://[^\n]*\n|#\[[^\]]*\]))*\s*)(.*)', f_)
         lead, rest = m2.group(1), m2.group(2)
+        rest = re.sub(r'^pub\s*\([^)]*\)\s*', '', rest)
         if rest.strip() and not re.match(r'pub\b', rest):
             rest = "pub " + rest
         out.append(lead + rest)
@@ -558,6 +572,8 @@ def build_unit(unit: Unit, cover=False, prelude_dir=None):
         else:
             inner = body
         modtext = f"\nmod {modname} {{ use super::*;\n// ---- {item.file} :: {item.header} [{item.mode}]\n{fill(item.pre, unit.params)}\n{inner}}}\n"
+        if item.header is not None and re.match(r'\s*(pub(\([^)]*\))?\s+)?trait\b', item.header):
+            modtext += f"pub use {modname}::*;\n"
         modtext = fill(modtext, unit.params)
         start_line = "".join(parts).count("\n") + 1
         parts.append(modtext)
